@@ -10,6 +10,7 @@ structure SameButRules (env env' : Env) : Prop where
   ext : env'.ext = env.ext
   nod : env.disabled = []          -- no rule is switched off through the API in either environment
   nod' : env'.disabled = []
+  fops : env'.fops = env.fops
 
 section frame
 variable {env env' : Env} (S : SameButRules env env')
@@ -71,7 +72,7 @@ theorem eval_rename {env env' : Env} (S : SameButRules env env') (f : Nat → Na
     simp only [renameRules, eval, S.blocks, eval_rename S f off l h]
   | .neg e, l, h => by
     simp only [ruleRefs] at h
-    simp only [renameRules, eval, eval_rename S f e l h]
+    simp only [renameRules, eval, S.fops, eval_rename S f e l h]
   | .bnot e, l, h => by
     simp only [ruleRefs] at h
     simp only [renameRules, eval, eval_rename S f e l h]
@@ -83,11 +84,11 @@ theorem eval_rename {env env' : Env} (S : SameButRules env env') (f : Nat → Na
     simp only [renameRules, eval, eval_rename S f e l h]
   | .arith op a b, l, h => by
     simp only [ruleRefs, List.mem_append] at h
-    simp only [renameRules, eval, eval_rename S f a l (fun k hk => h k (.inl hk)),
+    simp only [renameRules, eval, S.fops, eval_rename S f a l (fun k hk => h k (.inl hk)),
       eval_rename S f b l (fun k hk => h k (.inr hk))]
   | .cmp op a b, l, h => by
     simp only [ruleRefs, List.mem_append] at h
-    simp only [renameRules, eval, eval_rename S f a l (fun k hk => h k (.inl hk)),
+    simp only [renameRules, eval, S.fops, eval_rename S f a l (fun k hk => h k (.inl hk)),
       eval_rename S f b l (fun k hk => h k (.inr hk))]
   | .strop op a b, l, h => by
     simp only [ruleRefs, List.mem_append] at h
